@@ -4,7 +4,7 @@ import numpy as np
 from lib import common as C
 
 GEN = ['ComputeL', 'MultiplyBasis']
-IMPORTS = ['C03/basis_product', 'C03/two_codings_agree', 'C03/rs_matrix_den', 'C03/rmatmul_den']
+IMPORTS = ['C03/basis_product', 'C03/two_codings_agree', 'C03/rs_matrix_den', 'C03/rmatmul_den', 'C03/prune_thresholds']
 TRUSTED = ['the formal (dual-number) derivative of a polynomial expression is its analytic derivative (textbook differentiation rules)',
            'inspect.getsource-based output detection of @simple (generated functions are written to a real module file)']
 ASSUMPTIONS = ['the Coq model covers inputs, numbers, nested shifts, .ss, unary minus, + - *, division (all scalar/accumulator combinations) and positive integer powers; '
